@@ -152,3 +152,120 @@ fn convk_spill_load_roundtrip() {
     assert!(blk.last_accessed == 9);
     kani::cover!(e0.location.max_cut > e1.location.max_cut, "entries out of order");
 }
+
+#[path = "vstore.rs"]
+mod vstore;
+
+/// State with one spilled block of two symbolic entries: root node range [min,max] is any range
+/// that covers both entries (what `spill_lru` guarantees, see convk_spill_load_roundtrip), file
+/// holds the two encoded entries, all in-memory blocks empty.
+/// entry in a concrete segment (keeps `Block::find`'s result index concrete: a symbolic index
+/// into the heapless Vec in `consume_entry` costs > 10 GB), symbolic max cut and count
+fn any_entry_in(seg: u64) -> Entry {
+    let mut e = any_entry();
+    e.location = Location::new(SegmentIndex::new(seg), e.location.max_cut);
+    e
+}
+
+fn spilled_state(storage: &mut ConvergenceStorage, e0: Entry, e1: Entry) -> ArrSpill {
+    let min: u64 = kani::any();
+    let max: u64 = kani::any();
+    kani::assume(min <= e0.location.max_cut.get() && e0.location.max_cut.get() <= max);
+    kani::assume(min <= e1.location.max_cut.get() && e1.location.max_cut.get() <= max);
+    let _ = storage.root.push(NodeEntry {
+        min_max_cut: MaxCut::new(min),
+        max_max_cut: MaxCut::new(max),
+        file_offset: 0,
+        num_entries: 2,
+    });
+    let mut sp = ArrSpill { buf: [0; 256] };
+    sp.buf[0..ENTRY_BYTES].copy_from_slice(&e0.to_bytes());
+    sp.buf[ENTRY_BYTES..2 * ENTRY_BYTES].copy_from_slice(&e1.to_bytes());
+    sp
+}
+
+/// should_continue on a convergence point that lives in a spilled block: the entry — also when
+/// it has the lowest or the highest max cut of the block's range — is found through the root
+/// index, reloaded, and its arrival count consumed (all but the last arrival are dropped).
+// unwind 4: the root-index loop runs at most twice here (1 node); after the symbolic range test
+// CBMC no longer knows `ri`/`root.len()` concretely and would unroll to the bound (50 -> > 7 GB).
+// The unwinding assertions show 4 is enough for every loop reached.
+#[kani::proof]
+#[kani::unwind(4)]
+fn convk_should_continue_spilled_hit() {
+    let mut storage = ConvergenceStorage::new();
+    let e0 = any_entry_in(1);
+    let e1 = any_entry_in(2);
+    let sp = spilled_state(&mut storage, e0, e1);
+    let min = storage.root[0].min_max_cut;
+    let max = storage.root[0].max_max_cut;
+    let mut tb = TraversalBuffer::new();
+    let mut map = ConvergenceMap {
+        storage: &mut storage,
+        active_block: 0,
+        queue: tb.get(),
+        lca: Location::new(SegmentIndex::new(0), MaxCut::new(0)),
+        access_counter: 9,
+        spill_file: sp,
+        next_file_offset: 2 * ENTRY_BYTES,
+    };
+    let mut st = vstore::VStore::new();
+    let r = match map.should_continue(&mut st, e0.location) {
+        Ok(r) => r,
+        Err(_) => panic!("should_continue failed"),
+    };
+    assert!(r == (e0.count == 1));
+    assert!(st.get_segment_calls == 0);
+    match map.find_in_memory(e0.location) {
+        Some((b, i)) => {
+            assert!(e0.count > 1);
+            assert!(map.storage.blocks[b].entries[i].count == e0.count - 1);
+        }
+        None => assert!(e0.count == 1),
+    }
+    match map.find_in_memory(e1.location) {
+        Some((b, i)) => assert!(map.storage.blocks[b].entries[i].count == e1.count),
+        None => panic!("other spilled entry lost"),
+    }
+    kani::cover!(e0.location.max_cut == min, "target at the low end of the block range");
+    kani::cover!(e0.location.max_cut == max, "target at the high end of the block range");
+    kani::cover!(e0.count > 1, "dropped arrival");
+}
+
+/// should_continue on a location that is in no block continues (true), whether or not its max
+/// cut falls into a spilled block's range.
+// unwind 4: the root-index loop runs at most twice here (1 node); after the symbolic range test
+// CBMC no longer knows `ri`/`root.len()` concretely and would unroll to the bound (50 -> > 7 GB).
+// The unwinding assertions show 4 is enough for every loop reached.
+#[kani::proof]
+#[kani::unwind(4)]
+fn convk_should_continue_spilled_miss() {
+    let mut storage = ConvergenceStorage::new();
+    let e0 = any_entry_in(1);
+    let e1 = any_entry_in(2);
+    let sp = spilled_state(&mut storage, e0, e1);
+    let min = storage.root[0].min_max_cut;
+    let max = storage.root[0].max_max_cut;
+    let mut tb = TraversalBuffer::new();
+    let mut map = ConvergenceMap {
+        storage: &mut storage,
+        active_block: 0,
+        queue: tb.get(),
+        lca: Location::new(SegmentIndex::new(0), MaxCut::new(0)),
+        access_counter: 9,
+        spill_file: sp,
+        next_file_offset: 2 * ENTRY_BYTES,
+    };
+    let mut st = vstore::VStore::new();
+    let xs: u64 = kani::any();
+    kani::assume(xs <= 3);
+    let x = any_entry_in(xs);
+    kani::assume(x.location != e0.location && x.location != e1.location);
+    match map.should_continue(&mut st, x.location) {
+        Ok(r) => assert!(r),
+        Err(_) => panic!("should_continue failed"),
+    }
+    kani::cover!((x.location.max_cut >= min) & (x.location.max_cut <= max), "miss inside the spilled range");
+    kani::cover!(x.location.max_cut > max, "miss outside the spilled range");
+}
+
